@@ -88,6 +88,7 @@ func newExecutionContext(tpl *Template, ctx Context) *ExecutionContext {
 
 		Public:     ctx,
 		Private:    privateCtx,
+		Shared:     make(Context),
 		Autoescape: autoescape,
 	}
 }
